@@ -75,12 +75,12 @@ def run(ctx):
     import queue_rules as Q
     er_fields = facts.adt(ER)["variants"][0]["fields"]
     RFIELD = [x["name"] for x in er_fields if x["ty"] == "R"]
-    SKEY = shared.size_key_of(facts, ER)
-    ctx.require(len(RFIELD) == 1 and SKEY is not None, "C09.2: inner-reader / remaining-size fields of EqualReader")
+    SINIT = shared.size_init(facts, ER)
+    ctx.require(len(RFIELD) == 1 and SINIT is not None, "C09.2: inner-reader / remaining-size fields of EqualReader")
     RFIELD = RFIELD[0]
     import drain_rules as DR
     DR.stops_rule(ctx, "C09.2", ER, "the length-limited body reader", emit=("repeats",))
-    DR.owed_rules(ctx, "C09.2", ER, (1, "*") + SKEY)
+    DR.owed_rules(ctx, "C09.2", ER, SINIT)
 
     # ---- C09.6 end-of-body latches: a draining destructor that can be switched off by the reader's own state relies on that state changing
     # only when the body really ended; a zero-length read returns 0 anywhere in the body and must not do it
@@ -120,8 +120,9 @@ def run(ctx):
     g = PM.rd
     RC = T.reader_chain(facts)
     srb_next = RC.next
-    keep = [x["name"] for x in facts.adt(CC)["variants"][0]["fields"] if re.match(r"^util::sequential::SequentialReader<", x["ty"])]
-    ctx.require(len(keep) == 1, "C09.4: the connection's current head reader field")
+    keep_paths = shared.find_slot_paths(facts, CC, r"^util::sequential::SequentialReader<")        # (at any depth of private sub-structs)
+    ctx.require(len(keep_paths) == 1, "C09.4: the connection's current head reader field")
+    KEEP_KEY = (1, "*") + tuple("." + x for x in keep_paths[0])
     nrc = [(bb, t) for bb, t in g.calls() if call_matches(t, r"^request::new_request$")]
     srcn = [bb for bb, t in g.calls() if call_name(t) == srb_next.id]
     ok = len(nrc) == 1 and len(srcn) == 1
@@ -131,7 +132,7 @@ def run(ctx):
         # draw from the reader chain modelled as handing out a fresh reader
         st = symex.Sym(g)
         NEW = ("sym", "freshly-drawn-reader")
-        OLD = ("init", (1, "*", "." + keep[0]))
+        OLD = ("init", KEEP_KEY)
         def on_call(bb, t, args, s2):
             if bb == srcn[0]:
                 return ("some", NEW)
@@ -141,7 +142,7 @@ def run(ctx):
         for p in ps:
             args = [absint.deep(p.state, p.state.operand(a)) for a in g.term(nrc[0][0])["args"]]
             given_old = any(a == OLD for a in args)
-            kept = absint.deep(p.state, p.state.read_key((1, "*", "." + keep[0])))
+            kept = absint.deep(p.state, p.state.read_key(KEEP_KEY))
             if not (given_old and kept == NEW):
                 ok = False
                 detail = "kept=%s given=%s" % (symex.sym_str(kept), given_old)
@@ -154,7 +155,7 @@ def run(ctx):
     ctx.floor("C09.5 BufReader construction sites", len(sites), 1)
     for h, bb, t in sites:
         ctx.ob("C09.5", "bufreader|%s" % h.id, "the socket is wrapped in a BufReader exactly once per connection (a second buffering layer would swallow bytes of the next message)",
-               h.id in cc_ctor and not h.in_loop(bb), h.loc(bb))
+               (h.id in cc_ctor or any(shared.private_to(facts, c_, h.id) for c_ in cc_ctor)) and not h.in_loop(bb), h.loc(bb))
     return {}
 
 
